@@ -716,9 +716,7 @@ def distributeStubs (L : Ledger) (poolAmount samples : Nat) : List (Addr × Nat)
 /-- the end of one committee's distribution: burn the undistributed remainder, empty the pool, clear the committee
 data (keeping the heights). `rewardPool.Amount - totalDistributed` is an unguarded uint64 subtraction. -/
 def distributeFinish (L : Ledger) (d : CommitteeData) (poolAmount tot : Nat) : M Ledger :=
-  match subFromTotal L ((poolAmount + U64 - tot) % U64) with
-  | .error e => .error e
-  | .ok L2 =>
+  subFromTotal L ((poolAmount + U64 - tot) % U64) >>= fun L2 =>
     .ok (putCommitteeData (poolPut L2 d.chainId 0)
       { chainId := d.chainId, lastRootHeight := d.lastRootHeight, lastChainHeight := d.lastChainHeight })
 
